@@ -328,6 +328,51 @@ func (e *Engine) ghostType(name string) types.Type {
 	return nil
 }
 
+// ghostModel finds the abstraction function of ghost field `name` for the dynamic type of a handle.
+// It returns the defining clause, the pointer type of the object and its reference.
+func (en *Env) ghostModel(b TV, name string) (*Clause, types.Type, *Term) {
+	e := en.x.e
+	var dt types.Type
+	var ref *Term
+	switch h := b.V.(type) {
+	case VIface:
+		if h.Tag.IsConst() && h.Tag.Val.IsInt64() {
+			id := int(h.Tag.Val.Int64())
+			if id >= 1 && id <= len(e.tagTypes) && e.tagTypes[id-1] != nil {
+				dt = e.tagTypes[id-1]
+				ref = h.Ref
+			}
+		}
+	case VRef:
+		dt = b.T
+		ref = h.T
+	}
+	if dt == nil {
+		return nil, nil, nil
+	}
+	pt, ok := dt.Underlying().(*types.Pointer)
+	if !ok {
+		return nil, nil, nil
+	}
+	var tn *types.TypeName
+	switch n := types.Unalias(pt.Elem()).(type) {
+	case *types.Named:
+		tn = n.Obj()
+	}
+	if tn == nil || tn.Pkg() == nil {
+		return nil, nil, nil
+	}
+	ps := e.specs[tn.Pkg().Path()]
+	if ps == nil {
+		return nil, nil, nil
+	}
+	m := ps.Models[tn.Name()+"."+name]
+	if m == nil {
+		return nil, nil, nil
+	}
+	return m, dt, ref
+}
+
 func ghostHandle(v Val) *Term {
 	switch h := v.(type) {
 	case VIface:
@@ -367,6 +412,17 @@ func (en *Env) ghostLoad(name string, h *Term) TV {
 func (en *Env) selector(b TV, sel string) TV {
 	st := en.st
 	if strings.HasPrefix(sel, "$") {
+		if m, dt, ref := en.ghostModel(b, sel); m != nil {
+			// the ghost field is defined by the abstraction function of the handle's dynamic type
+			sub := *en
+			sub.vars = map[string]TV{"self": {V: VRef{ref}, T: dt}}
+			sub.ovars = sub.vars
+			sub.fr = nil
+			if tp := en.x.e.tpkgs[dt.Underlying().(*types.Pointer).Elem().(*types.Named).Obj().Pkg().Path()]; tp != nil {
+				sub.pkg = tp.Types
+			}
+			return sub.eval(m.E)
+		}
 		h := ghostHandle(b.V)
 		if h == nil {
 			en.fail("ghost field %s of a value without identity", sel)
